@@ -156,8 +156,11 @@ class AbstractFormat:
         # abs maps -inf to +inf, so +inf is present if either infinity was.
         # `has_neg_zero` is left at its default: `abs` never yields a negative
         # zero, so false is the derived answer here, not an omission.
+        # the bounds need not mirror each other (two's complement reaches one
+        # further down than up), so the image is bounded by the larger magnitude
         return AbstractFormat(
-            self.prec, self.exp, self.pos_bound, neg_bound=RealFloat.from_int(0),
+            self.prec, self.exp, max(self.pos_bound, -self.neg_bound),
+            neg_bound=RealFloat.from_int(0),
             has_pos_inf=self.has_pos_inf or self.has_neg_inf, has_neg_inf=False, has_nan=self.has_nan,
         )
 
